@@ -193,55 +193,63 @@ def _drive(rep: Report, tier: str, seed: int, P: Any, d: Path, futs: dict[str, A
         return metas[k]
 
     # ---- 2a. exhaustive family
-    # quick: single operations on the writer's own .zst; every (first, second) pair on the plain copy
-    # (the lazy offset table does not depend on the container); reduced operation set elsewhere.
+    # every operation of the model on a fresh reader of the writer's own .zst; (first, second) pairs on
+    # the plain copy (the lazy offset table does not depend on the container); a reduced operation set
+    # and probe sessions on the other containers; hr for every mode x threshold x count.
     ops_small = P.all_ops(max_n, (8,)) + [P.op("fwd", 1), P.op("fwd", 2), P.op("fwd", 5), P.op("fwd", 5, 0, 1),
                                           P.op("rev", 5), P.op("head", 5, 1), P.op("head", 2, 2),
                                           P.op("tail", 5, 1), P.op("tail", 2, 2)]
+    full_pairs_upto = -1 if quick else 2          # all (first, second) pairs for logs up to this length
     for levels in _enum_logs(lmax):
         w = get_enum(levels)
+        ln = len(levels)
         c0 = P.Container(w, "zst", "all", d)
         cp = P.Container(w, "plain", "all", d)
         for o in ops_all:
             batch.add(w, P.run_reader_session(c0, [o]), meta("reader", c0, "enum"))
-        if quick:
-            for f in firsts:
-                for o in ops_small:
-                    batch.add(w, P.run_reader_session(cp, [f, o]), meta("reader", cp, "enum2"))
+        for f in (ops_all if ln <= full_pairs_upto else firsts):
+            for o in (ops_small if quick else ops_all):
+                batch.add(w, P.run_reader_session(cp, [f, o]), meta("reader", cp, "enum2"))
+        for f in firsts:
+            if quick or ln > 3:
                 batch.add(w, P.run_reader_session(c0, [f, *probes]), meta("reader", c0, "enum-probe"))
-        else:
-            for f in (ops_all if len(levels) <= 3 else firsts):
-                for o in ops_all:
-                    batch.add(w, P.run_reader_session(cp, [f, o]), meta("reader", cp, "enum2"))
-            for f in firsts:
+            else:
                 for o in ops_small:
                     batch.add(w, P.run_reader_session(c0, [f, o]), meta("reader", c0, "enum2"))
-        for kind, prefix in other_containers:
+        others = other_containers if (quick or ln <= 3) else other_containers[:5]
+        for kind, prefix in others:
             c = P.Container(w, kind, prefix, d)
-            for o in (ops_small if quick else ops_all):
+            for o in ops_small:
                 batch.add(w, P.run_reader_session(c, [o]), meta("reader", c, "enum"))
             for f in firsts:
                 batch.add(w, P.run_reader_session(c, [f, *probes]), meta("reader", c, "enum-probe"))
         # hr: every mode x threshold (and omitted) x count (and omitted)
-        for p in ((5, 8, -1) if quick else (*THRESHOLDS, -1)):
+        if quick:
+            hr_p, hr_n = (5, 8, -1), (0, 1, 3, -1)
+        elif ln <= 3:
+            hr_p, hr_n = (*THRESHOLDS, -1), (0, 1, 2, 4, 6, -1)
+        else:
+            hr_p, hr_n = (5, 8), (1, 5, -1)
+        for p in hr_p:
             hr_ops = [P.op("fwd", p), P.op("rev", p)]
-            hr_ops += [P.op(m, p, n) for m in ("head", "tail") for n in ((0, 1, 3, -1) if quick else (0, 1, 2, 3, 4, 5, -1))]
+            hr_ops += [P.op(m, p, n) for m in ("head", "tail") for n in hr_n]
             for o in hr_ops:
-                batch.add(w, P.run_hr_session(c0, o, argv=P.hr_argv(o, rnd), content=len(levels) <= 2),
+                batch.add(w, P.run_hr_session(c0, o, argv=P.hr_argv(o, rnd), content=ln <= 2),
                           meta("hr", c0, "enum-hr"))
-        for kind, prefix in other_containers:
+        for kind, prefix in (others if ln <= 3 else ()):
             c = P.Container(w, kind, prefix, d)
             for o in (P.op("fwd", 5), P.op("rev", 8), P.op("head", 5, 1), P.op("tail", 8, 1))\
                     + (() if quick else (P.op("fwd", 8), P.op("tail", 2, 4))):
                 batch.add(w, P.run_hr_session(c, o), meta("hr", c, "enum-hr"))
     rep.extra["enumerated"] = {"log_length": f"0..{lmax}", "levels": list(ENUM_LEVELS), "ops": len(ops_all),
                                "ops_reduced": len(ops_small), "first_ops": len(firsts),
+                               "all_pairs_for_log_length_upto": full_pairs_upto,
                                "containers": 1 + len(other_containers)}
 
     mark("drive_enumerated")
     # ---- 2b. seeded random logs with hostile content
     sizes = [0, 1, 2, 3, 4, 6, 9, 17, 40] if quick else [0, 1, 1, 2, 2, 3, 3, 4, 5, 6, 7, 9, 12, 17, 25, 40, 80, 150]
-    specs = [P.spec_random(seed, i, n) for i, n in enumerate(sizes * (1 if quick else 4))]
+    specs = [P.spec_random(seed, i, n) for i, n in enumerate(sizes * (1 if quick else 2))]
     specs.append(dict(P.spec_random(seed, 1000, 4, "long"), longlen=300_000 if quick else 3_000_000))
     specs.append(P.spec_random(seed, 1001, 1000 if quick else 6000, "plain"))
     kinds = [(k, "all") for k in P.CONTAINERS] + [("plain", "none"), ("gz", "mixed"), ("zst", "none")]
@@ -359,10 +367,11 @@ def _drive(rep: Report, tier: str, seed: int, P: Any, d: Path, futs: dict[str, A
     rep.exhaustive = True
     rep.extra["exhaustive_space"] = (
         f"logs of length 0..{lmax} over 3 levels x the {len(ops_all)} operations of the model on a fresh reader "
-        "(writer's .zst) and every (first, second) pair with first in "
-        + ("the 10 state-changing operations, second in the reduced set (threshold 8 fully, 1/2/5 on one operation per mode)" if quick else
-           "all operations for length <= 3 (10 state-changing ones for length 4), second in all operations")
-        + " on the plain copy; single operations + probe sessions on the other containers; the random family "
+        "(writer's .zst); every (first, second) pair with first in "
+        + ("the 10 state-changing operations, second in the reduced set (threshold 8 fully, 1/2/5 on one operation "
+           "per mode)" if quick else
+           "all operations for length <= 2 (the 10 state-changing ones for length 3..4), second in all operations")
+        + " on the plain copy; reduced operations + probe sessions on the other containers; the random family "
           "and hr argv spellings are sampled")
 
     # ---- 5. binding self-tests
